@@ -53,6 +53,13 @@ def misuse(case):
                        ('method set to multicomplex on n=3', lambda: _set(nd.Derivative(np.exp, method='central', n=3), method='multicomplex')(1.0)),
                        ('Residue order<=pole_order', lambda: Residue(np.sin, order=2, pole_order=2)),
                        ('unknown path', lambda: CStepGenerator(path='xyz')),
+                       ('unknown path "straight"', lambda: CStepGenerator(path='straight')),
+                       ('unknown path "Spiral"', lambda: CStepGenerator(path='Spiral')),
+                       ('unknown path "ray"', lambda: nd.limits.Limit(np.sin, path='ray')),
+                       ('unknown path "RADIAL"', lambda: nd.limits.Limit(np.sin, path='RADIAL')),
+                       ('f complex in only some components, complex step', lambda: nd.Derivative(lambda x: np.sqrt(x + 0j), method='complex')(np.array([-4.0, 9.0]))),
+                       ('f complex in only some components, multicomplex', lambda: nd.Derivative(lambda x: x * np.array([1.0, 1j]), method='multicomplex')(np.array([1.0, 2.0]))),
+                       ('Jacobian of f with one complex component', lambda: nd.Jacobian(lambda x: np.array([x[0] * x[1], 1j * x[0]]), method='complex')(np.array([1.0, 2.0]))),
                        ('directionaldiff sizes', lambda: nd.directionaldiff(lambda x: np.sum(x ** 2), np.ones(2), np.ones(3))),
                        ('too few steps', lambda: fd.LogRule(n=2, method='forward', order=4)._apply(np.ones((2, 1)), np.ones((2, 1)), 2.0)),
                        ('non-vectorised fun', lambda: nd.Derivative(lambda x: np.array([1.0, 2.0, 3.0]))(np.array([1.0, 2.0])))]:
